@@ -111,6 +111,52 @@ CHECKS = {
         'level_note': 'trusted base: the harness oracle and counters, x86-64 TSO, sanitizer runtimes; WeakRingBuffer<void> capacity must be a multiple of 8 and records never wrap (a failed push on an empty ring is only a violation when 2x rounded size fits); '
                       'record sizes above capacity-16 and batches == capacity are only driven in NDEBUG builds (library asserts)',
     },
+    'C21': {
+        'technique': 'runtime monitoring: ownership ledger (owner word CAS on get, payload token of the last putter) and quiescent drain on real FreeList/TaggedFreeList/CachedFreeList under injected delays; ASan; TSan payload happens-before monitor',
+        'level_text': 'Seeded runs of 2-4 threads over pools of 1-8 nodes (each thread holds 0-3 nodes, so the refcount-at-zero re-add and head-CAS-failure paths run constantly; contention is measured from library atomic-op counts): '
+                      'a node returned by get() must be free in the ledger, carry the payload of its last put(), and at every quiescent point a drain yields exactly the nodes not held (none lost, none foreign, none twice)',
+        'level_note': 'trusted base: the harness ledger (relaxed atomics, adds no happens-before edge), x86-64 TSO, sanitizer runtimes; TaggedFreeList is compiled with -DNDEBUG (its constructor asserts atomic<16 bytes>::is_lock_free(), false with libstdc++); schedules sampled, not enumerated',
+    },
+    'C22': {
+        'technique': 'runtime monitoring: critical-section occupancy counters, plain-variable touch (TSan), reentrancy depth tracking and an instrumented lock pool ledger on real spin_lock / reentrant_spin_lock / lock_array / injecting_monitor / pool_monitor',
+        'level_text': '21 lock variants (6 back-offs, reentrant 32/64, lock_array with every selection policy and both constructors, injecting_monitor over spin/reentrant/std::mutex, pool_monitor over instrumented vyukov pools of capacity 2 so a third node '
+                      'forces the heap fall-back): occupancy fetch_add must return 0 at entry, a plain counter must equal the number of increments, only the owner\'s last unlock admits another thread, a self try_lock on a held spin lock fails, '
+                      'a pool lock is never handed to a second node before it is returned and is returned only with no holder and no waiter',
+        'level_note': 'trusted base: the harness monitors, x86-64 TSO, TSan runtime (libcds annotates its spin locks for TSan, so TSan sees double entry but not a weakened order inside lock/unlock); blocking acquisitions are made in index order so the workload cannot deadlock; a lost unlock (hang) is left to the watchdog',
+    },
+    'C24': {
+        'technique': 'runtime monitoring: side-table ownership ledger keyed by object address plus in-object tokens on real vyukov_queue_pool / lazy_vyukov_queue_pool / bounded_vyukov_queue_pool / pool_allocator; ASan',
+        'level_text': '11 pool variants (capacities 2-8, static and dynamic buffers, pool_allocator and its rebind): allocate() may not return an object that is held, a held object may not be overwritten, objects are deallocated by other threads than the allocator; '
+                      'strict mode (permits = capacity): the bounded pool may not throw and the unbounded one may not fall back to the heap; overcommit mode past capacity: heap fall-backs are ledgered too, bad_alloc of the bounded pool accepted; '
+                      'quiescent drain: exactly the missing objects come back (none lost)',
+        'level_note': 'trusted base: the harness ledger, x86-64 TSO, ASan runtime; capacity 1 violates the buffer precondition and is not driven; pools hand out raw storage, so the ledger lives outside the objects',
+    },
+    'C25': {
+        'technique': 'runtime monitoring by differential execution: every bit helper / splitter run against naive reference implementations, exhaustively over all 2^32 32-bit inputs (thorough) with ASan+UBSan as memory/UB oracle',
+        'level_text': 'bit_reversal swar/lookup/muldiv (+ byte helpers, all 256 bytes and table entries), bitop MSB/LSB/SBC/ZBC/RBO/complement incl. the portable fall-backs, beans log2floor/log2ceil/floor2/ceil2/is_power2: '
+                      'all 2^32 32-bit inputs in the thorough tier (2^24 stratified in quick) and 10^6-10^8 structured/random 64-bit inputs, involution checked; split_bitstring/byte_splitter/number_splitter: all cut-width sequences for 8/16-bit sources, '
+                      'seeded sequences for 32-160-bit sources, safe_cut on sources placed at the end of an exact-size heap block (ASan over-read oracle). Found and fixed: F2, F13',
+        'level_note': 'trusted base: the reference loops in include/cdsv/pure_*.h, g++ 12 ASan/UBSan; 64-bit inputs are sampled, 32-bit ones exhausted only in the thorough tier',
+    },
+    'C26': {
+        'technique': 'runtime monitoring by differential execution against an independently computed bit-reversed heap enumeration and a stack model (every n up to 2^20 in the thorough tier)',
+        'level_text': 'bit_reverse_counter<size_t> and <uint32_t>: for every n <= 2^16 (quick) / 2^20 (thorough) outputs are distinct, lie in the level range, complete levels are permutations of 1..n, the literal prefix clause is evaluated for every n '
+                      '(false by design when n+1 is not a power of two: known finding F3, keyed on equality with the reference enumeration so that any other deviation is a new violation); dec() returns the last slot and restores value/reversed_value/high_bit; '
+                      'all inc/dec words up to length 26 and random walks of 10^6-10^7 steps against a stack model',
+        'level_note': 'trusted base: the reference enumeration in include/cdsv/pure_c26.h',
+    },
+    'C27': {
+        'technique': 'runtime monitoring by differential execution of split_list::regular_hash/dummy_hash and (through a derived probe) bucket_no/parent_bucket against reference arithmetic for table sizes 2^0..2^63; real split lists traversed; UBSan',
+        'level_text': 'For swar/lookup/muldiv and every k = 0..63: parity (regular odd, dummy even), own dummy < key < next bucket dummy in split order, parent dummy < child dummy, invariant kept when the table doubles (all 2^16 low patterns at two positions + random hashes); '
+                      'bucket_no/parent_bucket for every table size (found and fixed: F4); 160 real split lists with identity hash checked for split order and bucket contiguity at every size reached',
+        'level_note': 'trusted base: the reference arithmetic in include/cdsv/pure_c27.h; the probe pins the protected bucket-count field without allocating a 2^32-bucket table',
+    },
+    'C28': {
+        'technique': 'runtime monitoring by exhaustive execution of feldman_hashset metrics::make over all head/array widths and of real FeldmanHashSet instances on adversarial shared-prefix hashes against a minimal-trie model; ASan+UBSan',
+        'level_text': 'metrics::make for hash sizes 1,2,4,8 (and 3,6,16,20) x head_bits 0..hash_bits x array_bits 0..16: layout consumes the hash bits exactly, documented minima honoured; 266-284 real FeldmanHashSet<HP> sets (14 instantiations, all three splitters): '
+                      'hashes equal except in the last chunk / one bit / all-ones / all-zeros: every distinct hash inserts, equal hashes rejected, all found, size() exact, get_level_statistics equals the model. Known finding F11 (UB for an unallocatable 64-bit head)',
+        'level_note': 'trusted base: the trie model in include/cdsv/pure_c28.h; configurations rejected by the constructor\'s own is_correct() asserts and heads wider than 16 bits (not allocatable) are skipped for real sets',
+    },
 }
 for e in ENGINES:
     e['serves_properties'] = sorted(CHECKS.keys())
